@@ -73,32 +73,23 @@ def loop_mtime_ok(F, body, arg_op):
             return False, 'looked up in a map other than the source metadata'
         if not all(x.kind == 'call' and x.key == 'std::iter::Iterator::next' for x in k):
             return False, 'key is not the loop path'
-    # the mapping closure projects `.mtime` only
+    # a mapping closure, if any, projects `.mtime` only; without one the whole FileMeta is handed on (the callee must project)
+    projected = False
     for o in os_:
         if o.kind == 'agg' and F.body(o.key) is not None:
             cb = F.body(o.key)
             ro = flow_of(cb).origins(0)
             if not (ro and all(x.kind == 'param' and x.path == ('mtime',) for x in ro)):
                 return False, 'mapping closure is not |m| m.mtime'
-    return True, ''
+            projected = True
+    return True, ('projected' if projected else 'whole')
 
 
 def r2(ctx, F):
     cg = callgraph_of(F)
-    n = 0
-    for fn, key in ((RUN_LOCAL, 'run_local'), (RUN_REMOTE, 'run_remote')):
-        for body in F.nested(fn):
-            fl = flow_of(body)
-            for cb, ct in fl.calls_to('incremental::deliver_local', 'incremental::deliver_pull', 'transfer::transfer_file_to_remote'):
-                c = callee(ct)
-                argi = {'incremental::deliver_local': 2, 'incremental::deliver_pull': 3, 'transfer::transfer_file_to_remote': 3}[c]
-                ok, why = loop_mtime_ok(F, body, ct['args'][argi])
-                n += 1
-                ctx.check(ok, 'C14.R2', '%s:%s(mtime)' % (key, c.split('::')[-1]), 'mtime = src_meta.get(rel).map(|m| m.mtime)',
-                          'the mtime handed to %s is not the source metadata\'s mtime of the same path: %s' % (c.split('::')[-1], why), term_loc(body, cb))
-    if n < 3:
-        ctx.missing('C14.R2', 'delivery call sites (found %d)' % n)
-    # inside the delivery fns: set_local_mtime(dst, t) with t the Some payload of the parameter, unchanged
+    # (a) inside the delivery fns: set_local_mtime(dst, t) with t a pure copy of ONE parameter (the Option<i64> itself, or the
+    #     `.mtime` of an Option<FileMeta>), on the path that was renamed onto, after the rename
+    deliv = {}      # fn -> (slot of the time-carrying parameter, projected inside the fn?)
     for fn in ('incremental::deliver_local', 'incremental::deliver_pull'):
         b = work_body(F, fn, ['meta::set_local_mtime'])
         if b is None:
@@ -107,10 +98,21 @@ def r2(ctx, F):
         fl = flow_of(b)
         for sb, st in fl.calls_to('meta::set_local_mtime'):
             to = fl.origins(st['args'][1])
-            # roles by type / use: the time is the payload of the fn's Option<i64> parameter, the path is the parameter renamed onto
-            mt_slots = set(params_of_type(F, b, lambda ty: ty.replace(' ', '') == 'std::option::Option<i64>'))
-            ts = param_slots(F, b, to)
-            pure = bool(to) and ts is not None and len(ts) == 1 and ts <= mt_slots and all(o.path == ('0',) for o in to if o.kind != 'comb')
+            plain = [o for o in to if o.kind not in ('comb', 'agg')]
+            clos = [o for o in to if o.kind == 'agg' and F.body(o.key) is not None]
+            ts = param_slots(F, b, plain)
+            paths = {tuple(o.path) for o in plain}
+            clos_ok = all((lambda ro: bool(ro) and all(x.kind == 'param' and x.path == ('mtime',) for x in ro))(flow_of(F.body(c.key)).origins(0)) for c in clos)
+            pure, inner = False, None
+            if ts is not None and len(ts) == 1 and clos_ok:
+                if paths == {('0',)} and not clos:
+                    pure, inner = True, False
+                elif paths and paths <= {('0', 'mtime')} and not clos:
+                    pure, inner = True, True
+                elif clos and paths <= {(), ('0',)}:
+                    pure, inner = True, True
+            if pure:
+                deliv[fn] = (list(ts)[0], inner)
             renames = fl.calls(lambda c: c.endswith('fs::rename'))
             rdst = set()
             for rb_, rt_ in renames:
@@ -118,8 +120,26 @@ def r2(ctx, F):
             ps = param_slots(F, b, fl.origins(st['args'][0]))
             dst_ok = ps is not None and len(ps) == 1 and ps == rdst
             after = all(fl.guarded_by(sb, rb, 'Ok') for rb, _ in renames) and bool(renames)
-            ctx.check(pure and dst_ok and after, 'C14.R2', '%s:set_local_mtime(dst, t)' % fn.split('::')[-1], 'mtime parameter passed unchanged, on the delivered file, after the rename',
+            ctx.check(pure and dst_ok and after, 'C14.R2', '%s:set_local_mtime(dst, t)' % fn.split('::')[-1], 'time = one parameter (or its .mtime) unchanged, on the delivered file, after the rename',
                       '%s sets a modified value / on another path / before the rename (pure=%s, dst=%s, after rename=%s)' % (fn, pure, dst_ok, after), term_loc(b, sb))
+    # (b) at the call sites: that parameter is src_meta.get(rel) of the loop path, with the `.mtime` projection on exactly one side
+    n = 0
+    for fn, key in ((RUN_LOCAL, 'run_local'), (RUN_REMOTE, 'run_remote')):
+        for body in F.nested(fn):
+            fl = flow_of(body)
+            for cb, ct in fl.calls_to('incremental::deliver_local', 'incremental::deliver_pull', 'transfer::transfer_file_to_remote'):
+                c = callee(ct)
+                slot, inner = deliv.get(c, ({'incremental::deliver_local': 3, 'incremental::deliver_pull': 4, 'transfer::transfer_file_to_remote': 4}[c], False))
+                ok, why = loop_mtime_ok(F, body, ct['args'][slot - 1])
+                if ok:
+                    outer = why == 'projected'
+                    if outer == inner:
+                        ok, why = False, ('`.mtime` is projected twice' if outer else 'the whole FileMeta is handed over but never projected to `.mtime`')
+                n += 1
+                ctx.check(ok, 'C14.R2', '%s:%s(mtime)' % (key, c.split('::')[-1]), 'mtime = src_meta.get(rel).map(|m| m.mtime)',
+                          'the mtime handed to %s is not the source metadata\'s mtime of the same path: %s' % (c.split('::')[-1], why), term_loc(body, cb))
+    if n < 3:
+        ctx.missing('C14.R2', 'delivery call sites (found %d)' % n)
     # push: the @{t} hole is the mtime parameter
     b = work_body(F, 'transfer::transfer_file_to_remote', ['tokio::process::Command::new'])
     cmds = shtemplate.ssh_commands(F, b) if b is not None else []
